@@ -296,6 +296,35 @@ def check_tree(sh, e, rng, seedtag):
                     break
         except (irsem.Undefined, irsem.Uninterpreted, irsem.IllFormed):
             pass
+    # --- coincidence substitutions: replace a subterm by ANOTHER subterm of the same tree and width (the result then
+    # contains equal siblings: 'unchanged, return self' shortcuts that compare with the wrong sibling only fail here)
+    byw = {}
+    for ck in sorted(subs):
+        try:
+            byw.setdefault(irsem.width(subs[ck]), []).append(ck)
+        except irsem.IllFormed:
+            pass
+    pairs = []
+    for w_, cks in sorted(byw.items()):
+        for a_ in cks:
+            for b_ in cks:
+                if a_ != b_ and a_ not in b_:      # the replacement does not contain the replaced term
+                    pairs.append((a_, b_))
+    if len(pairs) > 8:
+        pairs = rng.sample(pairs, 8)
+    for ck, cu in pairs:
+        t, u = subs[ck], subs[cu]
+        if is_aff and (exprgen.canon(e.dst) == ck):
+            continue
+        sh.case(('replace-by-sibling', c, ck, cu), cls='replace-sibling:%s' % t.__class__.__name__)
+        try:
+            got = e.replace_expr({exprgen.fresh_copy(t): exprgen.fresh_copy(u)})
+        except Exception as exn:
+            law('replace-raises:%s' % type(exn).__name__, t.__class__.__name__, 'by-sibling', '%r replacing %s by %s in %s' % (exn, t, u, e), {'sub': ck, 'by': cu})
+            continue
+        want = ref_subst(e, {ck: u})
+        if exprgen.canon(got) != exprgen.canon(want):
+            law('replace-structure', t.__class__.__name__, 'by-sibling/' + _where(e, ck), 'replace %s by %s in %s gives %s, reference substitution %s' % (t, u, e, got, want), {'sub': ck, 'by': cu})
     # --- canonize preserves the value
     if not is_aff:
         sh.case(('canonize', c))
